@@ -447,6 +447,8 @@ fn run(ctx: &mut Ctx) {
             ctx.max("max_join_nodes_in_a_plan", nj as u64);
             let view = dataset_view(&db, &from, &from_named);
             let mut failed = false;
+            // one re-assigned plan that agreed in the ambient pool: also run at every pool size
+            let mut sampled_plan: Option<PhysicalOperator> = None;
 
             // ---- 3. join algorithm assignments (+ scan swap, star expansion)
             if nj > 0 {
@@ -493,6 +495,9 @@ fn run(ctx: &mut Ctx) {
                             plans_seen.insert(hash_str(&format!("{:?}", p2)));
                             op_histogram(&p2, ctx);
                             let b = bag_of_rows(&rows);
+                            if b == base && (sampled_plan.is_none() || rq.chance(1, 4)) {
+                                sampled_plan = Some(p2.clone());
+                            }
                             if b != base {
                                 let names: Vec<&str> = assign.iter().map(|a| ["bind", "hash", "nested_loop"][*a as usize]).collect();
                                 ctx.violation(json!({"kind": "answer_depends_on_plan", "variant": "join_algorithm_assignment"}), witness(&case, "join algorithms re-assigned (pre-order)", json!({"assignment": names, "plan": format!("{:?}", p2).chars().take(2000).collect::<String>()}), &base, &b));
@@ -528,6 +533,25 @@ fn run(ctx: &mut Ctx) {
                 for (pi, pool) in pools.iter().enumerate() {
                     let n = [1, 2, 3, 4, 8, 16][pi];
                     ctx.add_evals(1);
+                    if let Some(p2) = &sampled_plan {
+                        let res2 = guard(|| pool.install(|| decode_bindings(&db, &ExecutionEngine::execute_with_ids_and_context(p2, &db, &kolibrie::streamertail_optimizer::ExecutionContext::new(view.clone())))));
+                        match res2 {
+                            Err(e) => {
+                                ctx.violation(json!({"kind": "panic", "stage": "thread_pool_reassigned_plan", "site": panic_site(&e)}), json!({"panic": e, "query": text, "threads": n}));
+                                failed = true;
+                                break;
+                            }
+                            Ok(rows) => {
+                                ctx.count(&format!("reassigned_plan_executions_in_pool_of.{:02}_threads", n), 1);
+                                let b = bag_of_rows(&rows);
+                                if b != base {
+                                    ctx.violation(json!({"kind": "answer_depends_on_plan", "variant": "thread_pool_size_with_reassigned_joins"}), witness(&case, "thread pool size, join algorithms re-assigned", json!({"threads": n, "plan": format!("{:?}", p2).chars().take(2000).collect::<String>()}), &base, &b));
+                                    failed = true;
+                                    break;
+                                }
+                            }
+                        }
+                    }
                     let res = guard(|| pool.install(|| decode_bindings(&db, &ExecutionEngine::execute_with_ids_and_context(&plan, &db, &kolibrie::streamertail_optimizer::ExecutionContext::new(view.clone())))));
                     match res {
                         Err(e) => {
